@@ -40,6 +40,47 @@ Theorem C27_flag_response : forall reg r rc v0 v1 ct m, reg 0 = false -> reg 1 =
 Proof. exact flag_response. Qed.
 Print Assumptions C27_flag_response.
 
+(* ... and the compressor the server compresses with is the one named in the response's
+   grpc-encoding (ordinary sends; PreparedMsg outside the class of clause 10) *)
+Theorem C27_server_codec_named : forall reg r rc v0 v1 ct, reg 0 = false -> reg 1 = false ->
+  scp r <> 1 -> server_send reg r rc = (v0, v1, ct) -> pick v0 v1 <> 0 ->
+  pick v0 v1 = ct /\ plain ct = false.
+Proof. exact server_codec_named. Qed.
+Print Assumptions C27_server_codec_named.
+
+(* PreparedMsg: on the client (mode bit 1) and in a unary Invoke (bit 4) nothing changes; on
+   the server (bit 2) a prepared message is compressed like an ordinary one unless the
+   handler changed the send compressor with SetSendCompressor (f10) *)
+Theorem C27_prepared_consistent : forall reg r rc, f10 reg r rc = false ->
+  server_codec reg r rc = (let '(v0, v1, _) := server_send reg r rc in pick v0 v1).
+Proof. exact server_codec_send. Qed.
+Print Assumptions C27_prepared_consistent.
+
+(* ... and REFUTED inside that class (finding, clause 10): PreparedMsg.Encode compresses with
+   the compressors stored in the stream's rpcInfo when the stream was created.
+   (a) client used gzip, handler SetSendCompressor(identity), Encode, SendMsg: header identity,
+       body gzip, flag 1, client fails with INTERNAL;
+   (b) uncompressed request, SetSendCompressor(gzip): header gzip, 5-byte message flag 0;
+   (c) client used gzip, SetSendCompressor(x-va): header x-va, body compressed with gzip
+       (server_codec = 2 although server_send names 3): the client cannot decode, INTERNAL *)
+Theorem C27_prepared_after_set_refuted :
+  run_rpc reg0 (mkRpc 2 0 0 None 0 0 1 [(5, 5)] 2) = [cInternal; 1; 1; 2; 1; 1; 0; 1; 1; 1; 1] /\
+  run_rpc reg0 (mkRpc 0 0 0 None 0 0 2 [(5, 5)] 2) = [0; 1; 1; 0; 2; 1; 1; 1; 0; 1; 0] /\
+  run_rpc reg0 (mkRpc 2 0 0 None 0 0 3 [(5, 5)] 2) = [cInternal; 1; 1; 2; 3; 1; 0; 1; 1; 1; 1] /\
+  server_codec reg0 (mkRpc 2 0 0 None 0 0 3 [(5, 5)] 2) 2 = 2 /\
+  server_send reg0 (mkRpc 2 0 0 None 0 0 3 [(5, 5)] 2) 2 = (0, 3, 3).
+Proof. exact prepared_after_set_refuted. Qed.
+Print Assumptions C27_prepared_after_set_refuted.
+
+(* completion: the ping-pong exchange fails only on a flagged response the client cannot
+   decode (given that a decoder, when present, is the compressor the server used) *)
+Theorem C27_fails_only_when_undecodable : forall cc sc ct d,
+  (sc <> 0 -> d <> 0 -> plain ct = false -> d = sc) ->
+  forall rs code dq dr qs fs, play cc sc ct d rs = (code, dq, dr, qs, fs) -> code <> 0 ->
+  existsb (fun f => f =? 1) fs = true /\ (plain ct = true \/ d = 0).
+Proof. exact play_fail_reason. Qed.
+Print Assumptions C27_fails_only_when_undecodable.
+
 (* the literal sentence is REFUTED for empty messages (statement deviation, clause 7):
    UseCompressor(gzip), empty message -> grpc-encoding gzip, flag 0 *)
 Theorem C27_flag_empty_refuted : exists r rc l,
@@ -58,7 +99,7 @@ Proof. exact flag_legacy_identity_fixed. Qed.
 Print Assumptions C27_flag_legacy_identity_fixed.
 
 Theorem C27_legacy_identity_witness :
-  run_rpc reg0 (mkRpc 0 0 0 None 3 0 1 [(5, 5)]) = [0; 1; 1; 0; 1; 1; 1; 1; 0; 1; 0].
+  run_rpc reg0 (mkRpc 0 0 0 None 3 0 1 [(5, 5)] 0) = [0; 1; 1; 0; 1; 1; 1; 1; 0; 1; 0].
 Proof. exact legacy_identity_witness. Qed.
 Print Assumptions C27_legacy_identity_witness.
 
@@ -132,8 +173,9 @@ Theorem C27_unsupported_use_compressor : forall reg r, use r <> 0 -> use r <> 1 
 Proof. exact unsupported_use_compressor. Qed.
 Print Assumptions C27_unsupported_use_compressor.
 
-(* The executable predicate evaluated on implementation traces (all clauses, clause 8
-   included, but the refuted 7 and 9) holds on every trace of the model. *)
+(* The executable predicate evaluated on implementation traces (all clauses, clauses 8 and 11
+   included, but the refuted 7, 9 and 10) holds on every trace of the model, for streaming,
+   PreparedMsg and unary ops. *)
 Theorem C27_holds_on_every_model_trace : forall ops, forallb op_wf ops = true ->
   exists obs, run ops = Some obs /\ holds_b ops obs = true.
 Proof. exact model_trace_holds. Qed.
@@ -151,11 +193,21 @@ Theorem C27_finding_clauses_fail_on_model :
 Proof. exact finding_clauses_fail_on_model. Qed.
 Print Assumptions C27_finding_clauses_fail_on_model.
 
+Theorem C27_finding_clause10_fails_on_model :
+  let ops := [[2; 2; 2; 0; 0; 0; 0; 0; 1; 1; 5; 5]; [2; 2; 0; 0; 0; 0; 0; 0; 2; 1; 5; 5];
+              [2; 2; 2; 0; 0; 0; 0; 0; 3; 1; 5; 5]] in
+  forallb op_wf ops = true /\
+  exists obs, run ops = Some obs /\
+    filter (fun c => negb (snd c)) (clauses ops obs) = [(10, 0, false); (10, 0, false); (10, 0, false)].
+Proof. exact finding_clause10_fails_on_model. Qed.
+Print Assumptions C27_finding_clause10_fails_on_model.
+
 (* non-vacuity: gzip both ways over two rounds; SetSendCompressor(x-vb) accepted when
    advertised; x-unreg request rejected with UNIMPLEMENTED *)
 Example C27_witness :
-  run_rpc reg0 (mkRpc 2 0 0 None 0 0 0 [(7, 7); (3, 9)]) = [0; 1; 0; 2; 2; 2; 2; 2; 1; 1; 2; 1; 1] /\
-  run_rpc reg0 (mkRpc 0 0 0 (Some (mask_has 4)) 0 0 4 [(7, 7)]) = [0; 1; 1; 0; 4; 1; 1; 1; 0; 1; 1] /\
-  run_rpc reg0 (mkRpc 0 5 0 None 0 0 0 [(7, 7)]) = [12; 0; 0; 5; 0; 0; 0; 0; 0] /\
-  forallb op_wf [[1; 2; 0; 0; 0; 0; 0; 0; 2; 7; 7; 3; 9]; [1; 0; 5; 0; 0; 0; 0; 0; 1; 7; 7]] = true.
+  run_rpc reg0 (mkRpc 2 0 0 None 0 0 0 [(7, 7); (3, 9)] 0) = [0; 1; 0; 2; 2; 2; 2; 2; 1; 1; 2; 1; 1] /\
+  run_rpc reg0 (mkRpc 0 0 0 (Some (mask_has 4)) 0 0 4 [(7, 7)] 0) = [0; 1; 1; 0; 4; 1; 1; 1; 0; 1; 1] /\
+  run_rpc reg0 (mkRpc 0 5 0 None 0 0 0 [(7, 7)] 0) = [12; 0; 0; 5; 0; 0; 0; 0; 0] /\
+  forallb op_wf [[1; 2; 0; 0; 0; 0; 0; 0; 2; 7; 7; 3; 9]; [1; 0; 5; 0; 0; 0; 0; 0; 1; 7; 7];
+                 [2; 3; 2; 0; 0; 0; 0; 0; 4; 2; 7; 7; 3; 9]; [2; 4; 3; 0; 0; 0; 0; 0; 0; 1; 7; 7]] = true.
 Proof. vm_compute. repeat split. Qed.
